@@ -102,6 +102,27 @@ void gom(Rng& rng)
             RA("div", c /= b)
             RA("add", c += r)
             RA("mul", c *= b)
+            // every compound assignment operator (all other operators behave exactly like the built-in ones)
+            RA("sub", c -= b)
+            RA("sub", c -= r)
+            RA("mod", c %= b)
+            RA("mod", c %= r)
+            RA("add", c += b)
+            RA("mul", c *= r)
+            RA("and", c &= b)
+            RA("or", c |= r)
+            RA("xor", c ^= b)
+            RB("and", a & b)
+            RB("or", a | r)
+            RB("xor", l ^ b)
+            if (r >= 0 && r < R(sizeof(int) * 8 - 1) && l >= 0) {
+                RB("shl", a << b)
+                RB("shr", a >> r)
+                RA("shl", c <<= b)
+                RA("shr", c >>= r)
+                RA("shl", c <<= r)
+                RA("shr", c >>= b)
+            }
             RC("lt", a < b) RC("lt", a < r) RC("lt", l < b)
             RC("le", a <= r) RC("gt", l > b) RC("ge", a >= r)
             RC("eq", a == b) RC("eq", a == r) RC("eq", l == b)
